@@ -500,7 +500,9 @@ pub fn run(tier: &str) -> i32 {
     let rep = Report::new("C13", tier, "model_checking");
     let th = rep.thorough();
     let cs = cases(th);
-    let full_depth = if th { 4 } else { 3 };
+    // thorough: depth 4 (82^4 = 45 M sequences per case) on every 12th case, depth 3 on all
+    let full_depth = 3;
+    let deep_every = if th { 12 } else { usize::MAX };
     let dedup_depth = if th { 12 } else { 7 };
     let res = par_for(cs.len() * 2, || (Stats::default(), BTreeMap::<&'static str, u64>::new()), |ix, acc| {
         let c = &cs[ix / 2];
@@ -509,7 +511,7 @@ pub fn run(tier: &str) -> i32 {
         let m = InfModel { c, rep: &rep, cov: Mutex::new(BTreeMap::new()), liveness: true };
         let mut d = if ix % 2 == 0 {
             // full depth, no dedup
-            Dfs::new(&m, false, if big { 2 } else { full_depth }, u64::MAX)
+            Dfs::new(&m, false, if big { 2 } else if (ix / 2) % deep_every == 0 { full_depth + 1 } else { full_depth }, u64::MAX)
         } else {
             if !HOOKS {
                 return;
@@ -537,6 +539,7 @@ pub fn run(tier: &str) -> i32 {
     rep.set("dedup_hits", json!(total.dedup_hits));
     rep.set("capped", json!(total.capped));
     rep.set("full_depth_completed", json!(full_depth));
+    rep.set("full_depth_plus_one_on_every_nth_case", json!(if th { 12 } else { 0 }));
     rep.set("dedup_depth_completed", json!(if HOOKS { dedup_depth } else { 0 }));
     rep.set("cases", json!({"valid": kinds(Kind::Valid), "truncated": kinds(Kind::Truncated), "corrupt": kinds(Kind::Corrupt), "trailing": kinds(Kind::Trailing)}));
     rep.set("protocol_events", json!(cov));
